@@ -46,7 +46,19 @@ def cases_a(draw):
             guard = draw(st.sampled_from(["false", "flag0", "notflag1", "flag1"]))
         stmts.append({"id": i, "deps": deps[i], "kind": kind, "guard": None if kind == "nop" else guard})
     stmts = list(draw(st.permutations(stmts)))
-    return {"stmts": stmts, "flags": [draw(st.booleans()), draw(st.booleans())], "steps": draw(st.integers(1, 2))}
+    case = {"stmts": stmts, "flags": [draw(st.booleans()), draw(st.booleans())], "steps": draw(st.integers(1, 2))}
+    if draw(st.integers(0, 3)) == 0:
+        # a second phase that re-uses the ids (ids are only unique per phase) with other edges and kinds
+        order = list(draw(st.permutations(ids)))
+        stmts2 = []
+        for k, i in enumerate(order):
+            d2 = sorted(draw(st.lists(st.sampled_from(order[:k]), unique=True, max_size=2))) if k else []
+            kind = draw(st.sampled_from(["assign", "assign", "yield", "nop"]))
+            guard = None if kind == "nop" else draw(st.sampled_from(["true", "true", "false", "flag0", "notflag1"]))
+            stmts2.append({"id": i, "deps": d2, "kind": kind, "guard": guard})
+        case["stmts2"] = stmts2
+        case["steps"] = draw(st.integers(2, 4))
+    return case
 
 
 @st.composite
@@ -72,12 +84,21 @@ def cases_b(draw):
 
 def build_a(case):
     import dagrt.language as lang
+    phases = {"p": lang.ExecutionPhase(name="p", next_phase="q" if "stmts2" in case else "p",
+                                       statements=build_a_statements(case["stmts"]))}
+    if "stmts2" in case:
+        phases["q"] = lang.ExecutionPhase(name="q", next_phase="p", statements=build_a_statements(case["stmts2"]))
+    return lang.DAGCode(phases, "p")
+
+
+def build_a_statements(stmts_):
+    import dagrt.language as lang
     from pymbolic import var
     from pymbolic.primitives import LogicalNot
     conds = {"true": True, "false": False, "flag0": var("<state>f0"), "flag1": var("<state>f1"),
              "notflag0": LogicalNot(var("<state>f0")), "notflag1": LogicalNot(var("<state>f1"))}
     out = []
-    for k, s in enumerate(case["stmts"]):
+    for k, s in enumerate(stmts_):
         if s["kind"] == "nop":
             out.append(lang.Nop(id=s["id"], depends_on=s["deps"]))
         elif s["kind"] == "assign":
@@ -88,8 +109,7 @@ def build_a(case):
                                        condition=conds[s["guard"]], depends_on=s["deps"]))
         else:
             out.append(lang.FailStep(id=s["id"], condition=conds[s["guard"]], depends_on=s["deps"]))
-    phase = lang.ExecutionPhase(name="p", next_phase="p", statements=out)
-    return lang.DAGCode({"p": phase}, "p")
+    return out
 
 
 def check_a(case):
@@ -112,12 +132,15 @@ def check_a(case):
         setattr(Rec, name, mk(name))
     interp = Rec(dag, {})
     interp.set_up(t_start=0, dt_start=1, context={"f0": case["flags"][0], "f1": case["flags"][1]})
-    byid = {s["id"]: s for s in case["stmts"]}
+    byids = {"p": {s["id"]: s for s in case["stmts"]}}
+    if "stmts2" in case:
+        byids["q"] = {s["id"]: s for s in case["stmts2"]}
     flagv = {"true": True, "false": False, "flag0": case["flags"][0], "flag1": case["flags"][1],
              "notflag0": not case["flags"][0], "notflag1": not case["flags"][1], None: True}
     for step in range(case["steps"]):
         del log[:]
         failed = False
+        byid = byids[interp.next_phase]
         try:
             for evt in interp.run_single_step():
                 pass
